@@ -124,25 +124,40 @@ def filter_axis(b, axis):
     return out
 
 
-def laplacian_filter(phi, order, ftype):
-    """scalar 3-D field; pass order x, y, z (x = last array axis)."""
+def filter_axis_abs(b, axis):
+    """magnitude bound of filter_axis: 1/4 (2|b| + |b_+| + |b_-|)."""
+    out = np.zeros_like(b)
+    inner = interior(b.ndim, 1)
+    val = 0.25 * (2.0 * b + _shift(b, axis, 1) + _shift(b, axis, -1))
+    out[inner] = val[inner]
+    return out
+
+
+def laplacian_filter(phi, order, ftype, magnitude=False):
+    """scalar 3-D field; pass order x, y, z (x = last array axis).
+
+    magnitude=True propagates a magnitude bound instead (all terms added with absolute values), which is what the
+    rounding tolerance of the comparison is scaled with; the filter is non-local, so a pointwise factor is not a bound.
+    """
     axes = [2, 1, 0]
     phi = phi.copy()
+    fa = filter_axis_abs if magnitude else filter_axis
+    sgn = 1.0 if magnitude else -1.0
     if ftype == "multiplicative":
         b = phi.copy()
         flux = np.zeros_like(phi)
         for _ in range(order):
             for a in axes:
-                flux = filter_axis(b, a)
+                flux = fa(b, a)
                 b = flux.copy()
-        return phi - flux
+        return phi + sgn * flux
     for a in axes:
         b = phi.copy()
         flux = np.zeros_like(phi)
         for _ in range(order):
-            flux = filter_axis(b, a)
+            flux = fa(b, a)
             b = flux.copy()
-        phi = phi - flux
+        phi = phi + sgn * flux
     return phi
 
 
@@ -236,7 +251,7 @@ def ns_step(cfg, dx, dt, vorticity, velocity, forcing, free_stream):
         if cfg.get("filter"):
             for c in range(3):
                 w[c] = laplacian_filter(w[c], cfg["filter"]["order"], cfg["filter"]["type"])
-            A = A * (1.0 + 2.0 ** cfg["filter"]["order"])
+            A = np.stack([laplacian_filter(A[c], cfg["filter"]["order"], cfg["filter"]["type"], magnitude=True) for c in range(3)])
     # 5. boundary damping
     if dim == 2:
         w, amp = damp_boundary(w, width)
